@@ -1,10 +1,16 @@
 #!/bin/sh
-# Runs every claimed check's quick command once, in sequence, against /repo; evidence/Cxx.json is rewritten.
+# Runs every claimed check's quick command once against /repo (three lanes in parallel); evidence/Cxx.json is rewritten.
 cd "$(dirname "$0")/.."
 : > out/refresh.log
-for c in $(ls claims | grep -E '^C[0-9]+\.json$' | sed 's/\.json//'); do
-  t0=$(date +%s)
-  bin/vcheck $c --tier quick > out/refresh_$c.log 2>&1; rc=$?
-  echo "$c rc=$rc wall=$(( $(date +%s) - t0 ))s $(grep -c '^VIOLATION' out/refresh_$c.log) violations $(grep -c '^KNOWN-FINDING' out/refresh_$c.log) known" >> out/refresh.log
-done
+lane() {
+  for c in "$@"; do
+    t0=$(date +%s)
+    bin/vcheck $c --tier quick > out/refresh_$c.log 2>&1; rc=$?
+    echo "$c rc=$rc wall=$(( $(date +%s) - t0 ))s $(grep -c '^VIOLATION' out/refresh_$c.log) violations $(grep -c '^KNOWN-FINDING' out/refresh_$c.log) known" >> out/refresh.log
+  done
+}
+lane C01 C03 C09 C17 C20 C04 C13 &
+lane C15 C05 C16 C08 C11 C07 C14 &
+lane C18 C19 C02 C12 C06 C10 &
+wait
 echo done >> out/refresh.log
